@@ -116,8 +116,13 @@ def run_driver(name, params, workdir):
     if name == "create":
         cols = make_table(params["seed"], params["n"])
         kw = dict(ra_name="ra", dec_name="dec", weight_name="w", redshift_name="z", chunksize=params["chunk"], max_workers=mw, progress=progress)
-        if params["mode"] == "centres":
+        if params["mode"] in ("centres", "centres_overwrite"):
             kw["patch_centers"] = AngularCoordinates(np.deg2rad(CENTRES_DEG))
+            if params["mode"] == "centres_overwrite":
+                # a complete catalog of other data already sits at the path: created again with overwrite=True
+                first = pd.DataFrame({k: v[: max(3, params["n"] // 2)][::-1] for k, v in cols.items()})
+                Catalog.from_dataframe(workdir / "out", first, **kw)
+                kw["overwrite"] = True
         elif params["mode"] == "empty_centre":
             # one of the given centres attracts no object: refused (ValueError) by every rank, as by a single process
             kw["patch_centers"] = AngularCoordinates(np.deg2rad(np.vstack([CENTRES_DEG, [[200.0, -60.0]]])))
@@ -134,8 +139,9 @@ def run_driver(name, params, workdir):
             from yaw.randoms import BoxRandoms
 
             g = BoxRandoms(19.0, 25.0, 4.0, 6.0, weights=cols["w"], redshifts=cols["z"], seed=params["seed"] % 1000)
-            cat = Catalog.from_random(workdir / "out", g, params["n"], patch_centers=AngularCoordinates(np.deg2rad(CENTRES_DEG)),
-                                      chunksize=params["chunk"], max_workers=mw, progress=progress)
+            pkw = (dict(patch_num=2, probe_size=params["n"]) if params["mode"] == "generate"
+                   else dict(patch_centers=AngularCoordinates(np.deg2rad(CENTRES_DEG))))
+            cat = Catalog.from_random(workdir / "out", g, params["n"], chunksize=params["chunk"], max_workers=mw, progress=progress, **pkw)
         if params["mode"] == "generate":
             # generated centres are not reproducible between runs by documentation: structural digest only
             # (all records once, every record nearest to its patch's reported centre)
